@@ -26,7 +26,10 @@ RULE = (
     'generate_timestamped_rows; oracle: rendering the stored epoch in the '
     'zone (UTC -> local by bisection of the zone\'s transition table, the '
     'opposite direction and a different code path from localize) gives back '
-    'the text.  Local times that no instant renders to are not members; for '
+    'the text; the same for whole records handed over in one call (400 '
+    'daily and 300 twelve-hourly stamps starting 30 days before a '
+    'transition, so that the record leaves an offset period and returns to '
+    'it).  Local times that no instant renders to are not members; for '
     'ambiguous ones either instant is accepted.  End to end: `spowtd load` '
     'of a record spanning a zone transition, staging and grid epochs '
     'compared with the UTC instants the texts were rendered from.  '
@@ -59,10 +62,10 @@ def decoy():
 def BOUND(tier):
     return {
         'quick': 'all %d zones; every transition 1900-2037 at 7 offsets; '
-                 'end-to-end load for 40 zones; malformed variants of '
+                 'end-to-end load and year-long records for 40 zones; malformed variants of '
                  'triples with 4..5 rain steps' % len(ZONES),
         'thorough': 'all %d zones; every transition 1900-2037 at 17 offsets; end-to-end '
-                    'load for every zone with a transition after 1971; '
+                    'load and year-long records for every zone with a transition after 1971; '
                     'malformed variants of triples with 4..7 rain steps'
                     % len(ZONES),
     }[tier]
@@ -219,9 +222,70 @@ def fixed_space():
     return Space('main(load) in fixed-offset zones', len(FIXED), decode)
 
 
+def series_space(tier):
+    """Whole records in one call: 400 daily and 300 twelve-hourly stamps
+    starting 30 days before a transition, so that the record leaves an
+    offset period and comes back to it (two or more transitions inside)"""
+    zones = dst_zones(tier)
+    index = []
+    for zone, idxs in zones:
+        for i in (idxs[-2:] if tier == 'quick' else idxs[-4:]):
+            for step_h, count in ((24, 400), (12, 300)):
+                index.append((zone, i, step_h, count))
+
+    def decode(i):
+        zone, ti, step_h, count = index[i]
+        return {'kind': 'series', 'zone': zone, 'transition': ti,
+                'step_h': step_h, 'count': count}
+    return Space('generate_timestamped_rows/records of 300-400 stamps '
+                 'across several transitions', len(index), decode)
+
+
+def run_series(case):
+    tz = pytz.timezone(case['zone'])
+    T = tz._utc_transition_times[case['transition']]
+    start = (T - datetime.timedelta(days=30)).replace(
+        hour=11, minute=30, second=0, microsecond=0)
+    locals_ = [start + datetime.timedelta(hours=case['step_h'] * k)
+               for k in range(case['count'])]
+    # only local times that exactly one instant renders to
+    keep = [(l, instants_rendering_to(l, tz)) for l in locals_]
+    keep = [(l, m[0]) for l, m in keep if len(m) == 1]
+    rows = [[l.strftime(FMT), str(k)] for k, (l, _) in enumerate(keep)]
+    try:
+        got = list(load_mod.generate_timestamped_rows(
+            [list(r) for r in rows], tz))
+    except Exception as exc:  # pylint: disable=broad-except
+        return Result(viol=[('existing-time-refused',
+                             'record of %d stamps in %s raised %r'
+                             % (len(rows), case['zone'], exc))],
+                      nontrivial=True, outcome='exc')
+    viol = []
+    if len(got) != len(rows):
+        viol.append(('row-count', '%d rows in, %d out' % (len(rows),
+                                                          len(got))))
+    else:
+        for (l, want), row, src in zip(keep, got, rows):
+            if row[0] != want or list(row[1:]) != src[1:]:
+                viol.append((
+                    'wrong-instant-in-record',
+                    '%s in %s (row %s of a record of %d) stored as %r, the '
+                    'instant rendering to it is %d (off by %s s)'
+                    % (src[0], case['zone'], src[1], len(rows), row[0],
+                       want, row[0] - want if isinstance(row[0], int)
+                       else '?')))
+                break
+    offs = {render(m, tz) - (EPOCH0 + datetime.timedelta(seconds=m))
+            for _, m in keep}
+    return Result(viol=viol, nontrivial=len(offs) > 1,
+                  outcome='%d offsets' % len(offs),
+                  counters={'stamps_in_records': len(rows)},
+                  obs={'rows': len(rows), 'offsets': len(offs)})
+
+
 def spaces(tier):
     return [malformed_space(tier), fixed_space(), e2e_space(tier),
-            stamp_space(tier)]
+            series_space(tier), stamp_space(tier)]
 
 
 # ------------------------------------------------------------------ runs
@@ -549,4 +613,6 @@ def run_case(case):
         return run_stamp(case)
     if case['kind'] == 'e2e':
         return run_e2e(case)
+    if case['kind'] == 'series':
+        return run_series(case)
     return run_malformed(case)
